@@ -16,7 +16,9 @@ RULE = ("X-sched: for fixed event sets the real parallel learner is run for n_jo
         "probe (one single-cue event, alpha*beta1 = 1/2: 1/2 once, 3/4 twice, 0 never) runs for every outcome. "
         "ndl.slice_list is compared with the model exhaustively for len <= 40, n <= 45. A case is non-trivial when "
         "n_jobs > 1 or there is more than one part; distinct by content hash. " + schedlib.RULE + ".")
-TRUSTED = ["CPython threads/GIL, libgomp and the hardware memory model are not modelled: real interleavings are amplified "
+TRUSTED = ["the translator tools/py2coq.py (structural map Python ast -> MiniPy constructors, fail-closed) and the MiniPy semantics (coq/theories/MiniPy.v) as a reading of CPython for the accepted fragment; validated on this run by evaluating the generated term with vm_compute against the real function / the hand-written model",
+           "harness/omplib.py: regular expressions over the C code Cython generated for this build (names __pyx_v_*/__pyx_t_*, brace matching, private/firstprivate/lastprivate/reduction clauses)",
+           "CPython threads/GIL, libgomp and the hardware memory model are not modelled: real interleavings are amplified "
            "and observed, the model exhibits every interleaving at row-update granularity"]
 ASSUMPTIONS = ["termination of the real runs is observed as a deadline (120 s per call, ~1 s normal), not proved"]
 
